@@ -5,9 +5,11 @@ import builtins
 import collections
 import dataclasses
 import functools
+import io
 import itertools
 import re
 import textwrap
+import tokenize
 import traceback
 import weakref
 from pathlib import Path
@@ -1009,11 +1011,28 @@ def get_charnos(node: ast.AST, source: str, keep_first_indent: bool = False) -> 
     return Range(start_charno, end_charno)
 
 
-def has_ignore_comment(source: str, rng: Range) -> bool:
-    pattern = re.compile(r"#\s*pyrefact\s*:\s*(skip_file|ignore)")
+_IGNORE_COMMENT_PATTERN = re.compile(r"#\s*pyrefact\s*:\s*(skip_file|ignore)")
 
+
+@functools.lru_cache(maxsize=100)
+def _ignore_comment_linenos(source: str) -> Collection[int] | None:
+    """Zero-based numbers of the physical lines that have an ignore comment (a comment token, not
+    the same text inside a string literal). None if the source cannot be tokenized."""
+    try:
+        # newline="" makes readline end lines at \n, \r\n and \r without translating them
+        tokens = tokenize.generate_tokens(io.StringIO(source, newline="").readline)
+        return frozenset(
+            token.start[0] - 1
+            for token in tokens
+            if token.type == tokenize.COMMENT and _IGNORE_COMMENT_PATTERN.search(token.string)
+        )
+    except (tokenize.TokenError, SyntaxError, ValueError):
+        return None
+
+
+def has_ignore_comment(source: str, rng: Range) -> bool:
     character_count = 0
-    for line in split_lines(source):
+    for lineno, line in enumerate(split_lines(source)):
         line_start = character_count
         line_end = character_count = line_start + len(line)
 
@@ -1028,8 +1047,12 @@ def has_ignore_comment(source: str, rng: Range) -> bool:
         else:
             touches_line = rng & Range(line_start, line_end)
 
-        if touches_line and pattern.search(line):
-            return True
+        if touches_line and _IGNORE_COMMENT_PATTERN.search(line):
+            # The same text inside a string literal is no comment. Source that cannot be tokenized
+            # gets the benefit of the doubt.
+            comment_linenos = _ignore_comment_linenos(source)
+            if comment_linenos is None or lineno in comment_linenos:
+                return True
 
     return False
 
